@@ -4,6 +4,8 @@ import os
 
 ROOT = os.path.dirname(os.path.dirname(os.path.abspath(__file__)))
 
+HOOK_COMMITS = ["d977877", "e9cf669"]
+
 CHECKS = {
     "C13": dict(
         text="TLC explores the step-by-step model of remove_overlaps/remove_indices (spec/Overlaps.tla) "
@@ -36,6 +38,20 @@ CHECKS["C02"] = dict(
     note="Trusted: TLC; the harness's independent character-class table; number denotation recomputed by the "
          "harness. Model excludes ':' '/' '@' so url/email lexers are exercised only through traces.",
     ref="4 C02", technique="TLA+ model checking (TLC) + spec-to-code replay + trace validation")
+
+CHECKS["C01"] = dict(
+    text="TLC checks the match contract (0 <= match <= tokens given, no out-of-range slice) of the transcribed "
+         "pattern algebra and the run_on_chunk loop for every pattern AST within a depth bound and every "
+         "token string (spec/PatternsOps.tla), and lexer progress / in-range condensing for every typed "
+         "buffer (spec/Typing.tla). Each AST is rebuilt from the real pattern types and run through the real "
+         "matches/run_on_chunk (zero drift expected). Document::new + lint is then executed on TLC's typing "
+         "buffers, all prefixes of the repository's test sentences, composed and randomly cut documents in "
+         "all 29 front-ends, adversarial texts and the repository's fixture files, under every kind of rule "
+         "configuration and dialect, each run under catch_unwind and a watchdog; the trace spec "
+         "(spec/trace/Trace_Typing.tla) has no action for a panic or timeout.",
+    note="Trusted: TLC, catch_unwind, the watchdog (20 s per text of <= 6000 chars stands in for the "
+         "polynomial-time clause; no asymptotic claim). Inputs are bounded samples of 'all Unicode texts'.",
+    ref="4 C01", technique="TLA+ model checking (TLC) + spec-to-code replay + trace validation")
 
 NOT_YET = {}
 
@@ -73,7 +89,7 @@ def main():
             "enable": "rustflags in /verif/harness/.cargo/config.toml pass --cfg harper_verif to every "
                       "crate of the harness build (path dependencies on /repo)",
             "baseline_off_cmd": "cd /repo && RUSTUP_AUTO_INSTALL=0 cargo test --workspace --no-fail-fast --offline",
-            "source_commits": [],
+            "source_commits": HOOK_COMMITS,
             "add_only": True,
         },
         "engines": [{
